@@ -404,3 +404,64 @@ def smtp_init(self, section):
 
 def mapping(section):
     return section.mapping
+
+
+# Registry lookups (docs/using-zconfig.rst 'Standard Datatypes' / registry
+# API): a dot-free name is normalised through basic-key (the registered one,
+# else the stock one) before lookup; stock names win over registered ones;
+# anything else is searched as a dotted Python name and remembered.
+
+def registry_get(self, name):
+    if '.' not in name:
+        if self._basic_key is None:
+            self._basic_key = self._other.get("basic-key")
+            if self._basic_key is None:
+                self._basic_key = self._stock.get("basic-key")
+            if self._basic_key is None:
+                self._basic_key = stock_datatypes["basic-key"]
+        name = self._basic_key(name)
+    t = self._stock.get(name)
+    if t is None:
+        t = self._other.get(name)
+        if t is None:
+            t = self.search(name)
+    return t
+
+
+def registry_search(self, name):
+    if "." not in name:
+        raise ValueError("unloadable datatype name")
+    components = name.split('.')
+    start = components[0]
+    g = {}
+    package = __import__(start, g, g)
+    modulenames = [start]
+    for component in components[1:]:
+        modulenames.append(component)
+        try:
+            package = getattr(package, component)
+        except AttributeError:
+            n = '.'.join(modulenames)
+            package = __import__(n, g, g, component)
+    self._other[name] = package
+    return package
+
+
+def registry_find_name(self, conversion):
+    for dct in self._other, self._stock:
+        for k, v in dct.items():
+            if v is conversion:
+                return k
+    return str(conversion)
+
+
+def schemaresourceerror_init(self, msg, url=None, lineno=None, colno=None,
+                             path=None, package=None, filename=None):
+    # carries what was looked for; the package's search path is copied (the
+    # error must not alias the package's own __path__ list)
+    self.filename = filename
+    self.package = package
+    if path is not None:
+        path = path[:]
+    self.path = path
+    ZConfig.SchemaError.__init__(self, msg, url, lineno, colno)
